@@ -621,7 +621,16 @@ func (e *Engine) applyIfaceContract(fr *Frame, st *State, ins ssa.Instruction, c
 	tb := e.tb
 	name := c.Key
 	all := append([]Val{self}, args...)
-	if !fr.ghost {
+	blackBox := fr.contract != nil && len(fr.contract.InvokeAssigns[c.Key]) > 0
+	if blackBox {
+		// "invoke ... assigns": the callee is an arbitrary implementation of the interface whose
+		// abstract precondition is assumed, not checked (listed among the notes of the run)
+		for _, cl := range c.Requires {
+			e.addFact(st, e.evalWrapper(fr, st, st, e.wrapperFn(c, cl), all).(*Term))
+		}
+		e.notes = append(e.notes, "interface call "+name+" treated as a black box with an extended frame (invoke ... assigns); its abstract precondition is assumed")
+	}
+	if !fr.ghost && !blackBox {
 		for _, cl := range c.Requires {
 			g := e.evalWrapper(fr, st, st, e.wrapperFn(c, cl), all).(*Term)
 			key := e.curFunc + "/pre" + name
@@ -643,6 +652,11 @@ func (e *Engine) applyIfaceContract(fr *Frame, st *State, ins ssa.Instruction, c
 		targets = append(targets, e.assignTargets(fr, pre, a, func(cl *Clause) Val {
 			return e.evalWrapper(fr, pre, pre, e.wrapperFn(c, cl), all)
 		})...)
+	}
+	if fr.contract != nil && !everything {
+		for _, a := range fr.contract.InvokeAssigns[c.Key] {
+			targets = append(targets, e.assignTargets(fr, pre, a, nil)...)
+		}
 	}
 	if everything {
 		targets = nil
@@ -672,6 +686,17 @@ func (e *Engine) applyIfaceContract(fr *Frame, st *State, ins ssa.Instruction, c
 	for _, cl := range c.Ensures {
 		g := e.evalWrapper(fr, st, pre, e.wrapperFn(c, cl), append(append([]Val{}, all...), res...)).(*Term)
 		e.addFactQ(st, g)
+	}
+	if fr.contract != nil {
+		for _, cl := range fr.contract.InvokeEnsures[c.Key] {
+			args := append(append([]Val{}, all...), res...)
+			for _, p := range fr.fn.Params {
+				args = append(args, e.val(fr, p))
+			}
+			g := e.evalWrapper(fr, st, pre, e.wrapperFn(fr.contract, cl), args).(*Term)
+			e.addFactQ(st, g)
+			e.notes = append(e.notes, "ASSUMED about "+name+" in "+e.curFunc+": ["+cl.Label+"] "+cl.Text)
+		}
 	}
 	_ = tb
 	return packResults(res)
